@@ -65,7 +65,7 @@ type c09Call struct {
 }
 
 func c09Worker(env *fw.Env) {
-	total := int64(env.Pick(24, 480))
+	total := int64(env.Pick(40, 480))
 	for i := int64(0); i < total; i++ {
 		if !env.Mine(i) || !env.Want(i) {
 			continue
